@@ -187,6 +187,27 @@ func runC12(c *Ctx) {
 		if i < 3 {
 			c.Sample(map[string]any{"check": "M1", "templates": []string{tpl, lit, mail}})
 		}
+		// (d) with un-escaping off the scanner loses nothing: re-rendering the tokens gives back the template
+		// (what an identity rewrite of a template relies on)
+		for _, t := range []string{s, tpl, lit, mail, "@@" + s, s + "@(1)@@x", "@contact@@" + s} {
+			var b strings.Builder
+			for _, k := range scanTokens(t, tops, false) {
+				switch k.K {
+				case "B":
+					b.WriteString(k.T)
+				case "I":
+					b.WriteString("@" + k.T)
+				case "E":
+					b.WriteString("@(" + k.T + ")")
+				}
+			}
+			ok := b.String() == t
+			check("M1-reassemble", classifyString(t), ok)
+			if !ok {
+				c.Fail("monitor", "M1-reassemble", "scanner-loses-text", "scanning a template without un-escaping and re-rendering the tokens does not give back the template",
+					map[string]any{"template": t, "rendered": b.String()})
+			}
+		}
 		// K: scanner correspondence on the raw string and its variants, both unescape modes
 		if i%2 == 0 {
 			for _, t := range []string{s, tpl, lit, mail} {
@@ -275,6 +296,30 @@ func runC12(c *Ctx) {
 		tl := "@(" + quoteSafe(s) + ")"
 		if out, err := evalTpl(tl, ctx); err == nil {
 			c.Model("tpllit", "tpllit "+topsArg(tops)+" "+hx(tl), "ok "+hx(out), tl)
+		}
+	}
+
+	// ---- M4: the literal the code base itself writes for a string denotes that string ----
+	n = c.N(3000, 100000)
+	for i := 0; i < n; i++ {
+		s := genStringBS(r, 12)
+		if r.Chance(30) { // long values
+			s = strings.Repeat(genString(r, 9)+"x", r.Range(10, 80)) + s
+		}
+		parsed, err := excellent.Parse(quoteSafe(s), nil)
+		if err != nil {
+			c.Fail("monitor", "M4-printed-literal", "safe-literal-unparseable", "the safe literal form does not parse", map[string]any{"s": s})
+			continue
+		}
+		printed := parsed.String()
+		env := envs.NewBuilder().Build()
+		v1, _ := excellent.NewEvaluator().Expression(env, ctx, printed)
+		got, _ := types.ToXText(env, v1)
+		ok := !types.IsXError(v1) && got.Native() == s
+		check("M4-printed-literal", classifyString(s)+fmt.Sprint(len(s) > 128), ok)
+		if !ok {
+			c.Fail("monitor", "M4-printed-literal", "printed-literal-differs", "printing a text literal gives an expression that does not evaluate to the same string",
+				map[string]any{"s": s, "printed": printed, "got": got.Native(), "runes": utf8.RuneCountInString(s)})
 		}
 	}
 
